@@ -1,5 +1,6 @@
 import AgModel.Proofs.PoolS2N
 import AgModel.Proofs.PoolS2NComplete
+import AgModel.Proofs.PoolS2NGlue
 /-!
 # C06 — Safe-to-notar / safe-to-skip are signalled exactly when the protocol allows
 
@@ -128,5 +129,150 @@ example :
     let e : Epoch := { stakes := [1, 1, 1, 1, 1], own := 0 }
     let r := slotRun e { slot := 3 } [.vote ⟨.skip, 3, 0, 1⟩, .vote ⟨.skip, 3, 0, 2⟩, .vote ⟨.notar, 3, 7, 0⟩]
     r.2.2 = [.repair 3 7, .s2s 3] := by decide
+
+/-! ## The pool level: which block gets `parentKnown` / `parentCertified`, and when
+
+`poolRun` (Proofs/PoolGlue.lean) runs any list of pool operations — votes, received certificates, block registrations —
+from the empty pool `{ epoch := e }`; certificates created by votes are added by `add_valid_cert` exactly as in
+`PoolImpl`, with finalization, pruning and `notify_waiting_children` interleaved. A registration `.block b par` is
+*accepted* when `b.1 > par.1` and the finality tracker takes the link (`Finality.addParent … = .ok …`; it refuses — a
+"consensus safety violation" assertion, `add_block` then panics before touching the pool — when the same block was
+registered with a different parent or the link would finalize a block conflicting with a finalized one).
+`Held p par`: the slot state of `par.1` exists and holds a notarization, notar-fallback or fast-finalization
+certificate for `par.2`. `kidsOf p par`: the children waiting under `par` in `s2n_waiting_parent_cert`. -/
+
+/-- **Flag completeness.** Whenever an accepted registration `b → par` happened during the run and `b`'s slot is still
+    retained, the slot state of `b.1` exists, `b` has a parent entry, and the entry is `true` as soon as the pool holds a
+    certificate for `par` — whichever of the block, the certificate (received, or created by votes) arrived last, and
+    whatever was pruned, re-created or registered in between. If the entry is still `false`, `b` is queued under `par`. -/
+theorem pool_parent_flag_complete (e : Epoch) (pre post : List PoolOp) (b par : Nat × Nat) :
+    let q := (poolRun { epoch := e } pre).1
+    let p := (poolRun { epoch := e } (pre ++ .block b par :: post)).1
+    b.1 > par.1 → (∃ t ev, Finality.addParent q.fin b par = .ok t ev) → p.fin.first ≤ b.1 →
+    ∃ st flag, p.getSlot b.1 = some st ∧ st.parents.lookup b.2 = some flag ∧
+      (Held p par → flag = true) ∧ (flag = false → b ∈ kidsOf p par) := by
+  intro q p hgt hacc hret
+  have hinv := poolRun_flag (pre ++ .block b par :: post) [] { epoch := e } (FlagInv.init e)
+  have hmem := mem_regsRun { epoch := e } pre post b par ⟨hgt, hacc⟩
+  obtain ⟨st, hg, hc⟩ := hinv.2 (b, par) (by simpa using hmem) hret
+  rcases hc with hc | ⟨hc, hw⟩
+  · exact ⟨st, true, hg, hc, fun _ => rfl, fun h => by cases h⟩
+  · rcases hw with ⟨hx, _⟩ | ⟨_, hnh, hk⟩
+    · cases hx
+    · exact ⟨st, false, hg, hc, fun hh => absurd hh hnh, fun _ => hk⟩
+
+/-- The acceptance hypothesis is necessary: after two conflicting fast-finalization certificates for slots 2 and 3, the
+    tracker refuses the link `(3,7) → (2,8)` (block `(2,9)` is finalized), `add_block` panics, and block `(3,7)` has
+    no parent entry although its slot state exists and is retained. -/
+theorem pool_parent_flag_needs_acceptance :
+    let e : Epoch := { stakes := [1], own := 0 }
+    let r := poolRun { epoch := e } [.cert ⟨.ff, 3, 7, [], [], 0⟩, .cert ⟨.ff, 2, 9, [], [], 0⟩, .block (3, 7) (2, 8)]
+    r.1.fin.first ≤ 3 ∧ (r.1.getSlot 3).map (fun st => st.parents.lookup 7) = some none ∧ Event.panic ∈ r.2 := by
+  decide +kernel
+
+/-- **Flag soundness.** A parent entry `h ↦ true` in the slot state of `s` exists only if block `(s, h)` was registered
+    (accepted) with some parent `par` during the run **and** the pool stored — and announced with `CertCreated` — a
+    notarization, notar-fallback or fast-finalization certificate for that very `par` during the run. (Applied to every
+    prefix of a run: not later than the operation in which the entry became `true`.) -/
+theorem pool_parent_flag_sound (e : Epoch) (ops : List PoolOp) (s h : Nat) (st : SlotState) :
+    let p := (poolRun { epoch := e } ops).1
+    p.getSlot s = some st → st.parents.lookup h = some true →
+    ∃ pre post par c, ops = pre ++ .block (s, h) par :: post ∧
+      (s > par.1 ∧ ∃ t ev, Finality.addParent (poolRun { epoch := e } pre).1.fin (s, h) par = .ok t ev) ∧
+      Event.cert c ∈ (poolRun { epoch := e } ops).2 ∧ (c.kind = .notar ∨ c.kind = .nf ∨ c.kind = .ff) ∧
+      (c.slot, c.hash) = par := by
+  intro p hg hl
+  have hinv := poolRun_sound e ops [] (fun _ => False) { epoch := e } (SoundInv.init e)
+  obtain ⟨par, hr, hc⟩ := hinv.2.2.1 s st hg h hl
+  rw [getSlot_slot hg] at hr
+  obtain ⟨pre, post, he, ha⟩ := regsRun_mem ops _ _ (by simpa using hr)
+  rcases hc with hc | hc
+  · cases hc
+  · obtain ⟨c, hm, hs, hid⟩ := certIds_mem hc
+    exact ⟨pre, post, par, c, he, ha, hm, hs, hid⟩
+
+/-- every certificate for a block the pool holds (`Held`) was announced with `CertCreated` during the run; together with
+    `pool_parent_flag_sound`: held certificates only disappear by pruning, never silently appear -/
+theorem pool_held_announced (e : Epoch) (ops : List PoolOp) (par : Nat × Nat) :
+    Held (poolRun { epoch := e } ops).1 par →
+    ∃ c, Event.cert c ∈ (poolRun { epoch := e } ops).2 ∧ (c.kind = .notar ∨ c.kind = .nf ∨ c.kind = .ff) ∧
+      (c.slot, c.hash) = par := by
+  intro ⟨st, hg, hh⟩
+  have hinv := poolRun_sound e ops [] (fun _ => False) { epoch := e } (SoundInv.init e)
+  have := hinv.2.2.2 par.1 st hg par.2 hh
+  rw [getSlot_slot hg] at this
+  rcases this with hc | hc
+  · cases hc
+  · exact certIds_mem hc
+
+/-- **No `parent not known` panic.** In every reachable pool, every child in the waiting map whose slot is retained is a
+    known parent entry of its (existing) slot state — the waiting map only holds registered children —, hence
+    `notify_waiting_children` for any block emits no panic. (`add_valid_cert` calls it on the pool after the
+    certificate was stored and the watermark advanced: `pool_no_unknown_parent_panic_wake`; `add_block` calls
+    `notify_parent_certified` for the entry it has just created: `pool_no_unknown_parent_panic_block`.) -/
+theorem pool_no_unknown_parent_panic (e : Epoch) (ops : List PoolOp) :
+    let p := (poolRun { epoch := e } ops).1
+    (∀ par kids, (par, kids) ∈ p.waiting → ∀ k ∈ kids, p.fin.first ≤ k.1 →
+      ∃ st, p.getSlot k.1 = some st ∧ (st.parents.lookup k.2).isSome = true) ∧
+    (∀ par, Event.panic ∉ (p.notifyWaiting par).2) := by
+  intro p
+  have hinv := poolRun_flag ops [] { epoch := e } (FlagInv.init e)
+  refine ⟨fun par kids hm k hk hf => (hinv.2 (k, par) (hinv.1 par kids hm k hk)).known hf, fun par => ?_⟩
+  exact (notifyWaiting_flag _ p par hinv.1 (fun r hr => (hinv.2 r hr).exempt par)).2
+
+/-- the same inside `add_valid_cert(c)`, at the pool on which `notify_waiting_children` is actually called: after the
+    certificate was stored (`stored`), and after `handle_finalization` advanced the watermark and pruned (`advance`);
+    `FlagInv` is the invariant that holds in every reachable pool (`poolRun_flag`) **and** between the certificates a
+    vote creates (`addValidCert_flag`) -/
+theorem pool_no_unknown_parent_panic_wake (R : List Reg) (p : Pool) (c : Cert) (h : FlagInv R p)
+    (hs : c.kind = .notar ∨ c.kind = .nf ∨ c.kind = .ff) :
+    Event.panic ∉ ((p.stored c).notifyWaiting (c.slot, c.hash)).2 ∧
+    (∀ t r, p.fin.first ≤ t.first → Event.panic ∉ (((p.stored c).advance t r).notifyWaiting (c.slot, c.hash)).2) ∧
+    FlagInv R (p.addValidCert c).1 := by
+  refine ⟨((h.stored c).wake hs).2, fun t r hm => (((h.stored c).advance t r ?_).wake hs).2, addValidCert_flag R c p h⟩
+  unfold Pool.stored
+  rw [(mod_frame p c.slot _).2.1]; exact hm
+
+theorem pool_no_unknown_parent_panic_block (q : Pool) (b par : Nat × Nat) (e0 : List Event) (cert : Bool)
+    (h0 : Event.panic ∉ e0) : Event.panic ∉ (Pool.addBlockTail (q.known b) b par e0 cert).2 :=
+  addBlockTail_no_panic _ b par e0 cert (known_known q b) h0
+
+/-- **Pool-level completeness / timeliness of safe-to-notar.** In every reachable pool (positive total stake), for every
+    accepted registration `b → par` whose slot is retained: if the pool holds a certificate for `par`, the stake clause
+    holds for `b` and the node's own vote in the slot is stored and is not a notarization of `b`, then safe-to-notar for
+    `b` **has been raised** (`b.2 ∈ sent`; `check_safe_to_notar` inserts there exactly when it answers `SafeToNotar`).
+    Holding after every operation, this says the signal is raised by the end of the operation that completes the
+    condition — the last vote, the own vote, the block registration, or the parent's certificate by votes or received.
+    Dropping a waiting child (D11), re-creating a pruned one (D20) or not waking on a fast-finalization certificate (D21)
+    would falsify this theorem. -/
+theorem pool_s2n_complete (e : Epoch) (hpos : 0 < e.total) (pre post : List PoolOp) (b par : Nat × Nat) :
+    let q := (poolRun { epoch := e } pre).1
+    let p := (poolRun { epoch := e } (pre ++ .block b par :: post)).1
+    b.1 > par.1 → (∃ t ev, Finality.addParent q.fin b par = .ok t ev) → p.fin.first ≤ b.1 →
+    ∃ st, p.getSlot b.1 = some st ∧
+      (Held p par → stakeClause e st b.2 = true → ownVotedNot e st b.2 = true → b.2 ∈ st.sent) := by
+  intro q p hgt hacc hret
+  obtain ⟨st, flag, hg, hl, hh, _⟩ := pool_parent_flag_complete e pre post b par hgt hacc hret
+  refine ⟨st, hg, fun hheld hst hown => ?_⟩
+  have hc := (poolRun_closed (cinv_closed e hpos) (pre ++ .block b par :: post) { epoch := e } ⟨rfl, SlotsSat.init e _⟩).2 b.1 st hg
+  rcases hc b.2 with x | x
+  · exact x
+  · exact absurd ⟨hst, by rw [hl, hh hheld], hown⟩ x.1
+
+/-- **Pool-level soundness.** Conversely, in every reachable pool a recorded safe-to-notar signal for `(s, h)` is
+    justified: the stake clause and the own-vote condition hold in the slot state, the block was registered (accepted)
+    with some parent, and a notarization / notar-fallback / fast-finalization certificate for that parent was stored and
+    announced during the run. -/
+theorem pool_s2n_sound (e : Epoch) (ops : List PoolOp) (s h : Nat) (st : SlotState) :
+    let p := (poolRun { epoch := e } ops).1
+    p.getSlot s = some st → h ∈ st.sent →
+    stakeClause e st h = true ∧ ownVotedNot e st h = true ∧
+    ∃ pre post par c, ops = pre ++ .block (s, h) par :: post ∧
+      (s > par.1 ∧ ∃ t ev, Finality.addParent (poolRun { epoch := e } pre).1.fin (s, h) par = .ok t ev) ∧
+      Event.cert c ∈ (poolRun { epoch := e } ops).2 ∧ (c.kind = .notar ∨ c.kind = .nf ∨ c.kind = .ff) ∧
+      (c.slot, c.hash) = par := by
+  intro p hg hs
+  have hc := (poolRun_closed (sentSound_closed e) ops { epoch := e } ⟨rfl, SlotsSat.init e _⟩).2 s st hg h hs
+  exact ⟨hc.1, hc.2.2, pool_parent_flag_sound e ops s h st hg hc.2.1⟩
 
 end AgModel.Pool
